@@ -491,7 +491,44 @@ func (l *Linter) resolveFileInclusion(
 	defer func() {
 		l.includeStack = l.includeStack[:len(l.includeStack)-1]
 	}()
-	return l.resolveIncludeStatements(statements, ctx, isRoot)
+	resolved := l.resolveIncludeStatements(statements, ctx, isRoot)
+	if !isRoot {
+		// The nested blocks are linted after this module has left the include stack,
+		// so their include statements are resolved now in order to detect an include cycle through them
+		l.resolveNestedIncludes(resolved, ctx)
+	}
+	return resolved
+}
+
+// Resolve include statements inside of the nested blocks of the statements
+func (l *Linter) resolveNestedIncludes(statements []ast.Statement, ctx *context.Context) {
+	resolve := func(block *ast.BlockStatement) {
+		if block == nil {
+			return
+		}
+		block.Statements = l.resolveIncludeStatements(block.Statements, ctx, false)
+		l.resolveNestedIncludes(block.Statements, ctx)
+	}
+
+	for _, stmt := range statements {
+		switch t := stmt.(type) {
+		case *ast.BlockStatement:
+			resolve(t)
+		case *ast.IfStatement:
+			resolve(t.Consequence)
+			for _, a := range t.Another {
+				resolve(a.Consequence)
+			}
+			if t.Alternative != nil {
+				resolve(t.Alternative.Consequence)
+			}
+		case *ast.SwitchStatement:
+			for _, c := range t.Cases {
+				c.Statements = l.resolveIncludeStatements(c.Statements, ctx, false)
+				l.resolveNestedIncludes(c.Statements, ctx)
+			}
+		}
+	}
 }
 
 //nolint:gocognit,funlen
